@@ -101,8 +101,9 @@ def detect_and_store(seed_dir, sid, meta, result, checks, patch, demo):
         # detection in scratch copies: /repo is not touched (see tools_seed_iso.py)
         dst = os.path.join(VERIF, "seeded", sid)
         os.makedirs(dst, exist_ok=True)
-        shutil.copy(patch, os.path.join(dst, "patch.diff"))
-        shutil.copy(demo, os.path.join(dst, "demo_test.go"))
+        if os.path.abspath(os.path.dirname(patch)) != os.path.abspath(dst):
+            shutil.copy(patch, os.path.join(dst, "patch.diff"))
+            shutil.copy(demo, os.path.join(dst, "demo_test.go"))
         meta["verification"] = result
         json.dump(meta, open(os.path.join(dst, "meta.json"), "w"), indent=1)
         import tools_seed_iso
